@@ -36,17 +36,17 @@ theorem sp_stops (argW tail : Wire) : Stops isSearchAtomChar (sp ++ argW ++ tail
   simp only [List.append_assoc]; exact stops_sp _ (by decide) _
 
 section keys
-variable (fuel : Nat)
+variable (fuel ld kd : Nat)
 
-theorem good_all : Good (fuel + 1) (kw "ALL", id) := by
-  have := good_atomKey fuel (str "ALL") [] id (by decide) (by decide) (by decide)
+theorem good_all : Good (fuel + 1) ld kd (kw "ALL", id) := by
+  have := good_atomKey fuel ld kd (str "ALL") [] id (by decide) (by decide) (by decide)
     (fun tail h => by simpa using sep_stops_search h)
     (fun rec c tail _ => by simp (decide := true) [pSearchKeyAtom])
   simpa [kw] using this
 
 theorem good_uid (s : NSet) (hs : SetOK s) :
-    Good (fuel + 1) (kw "UID" ++ sp ++ atom s.text, addF fun f => { f with uidSets := f.uidSets ++ [s] }) := by
-  have := good_atomKey fuel (str "UID") (sp ++ atom s.text) (addF fun f => { f with uidSets := f.uidSets ++ [s] })
+    Good (fuel + 1) ld kd (kw "UID" ++ sp ++ atom s.text, addF fun f => { f with uidSets := f.uidSets ++ [s] }) := by
+  have := good_atomKey fuel ld kd (str "UID") (sp ++ atom s.text) (addF fun f => { f with uidSets := f.uidSets ++ [s] })
     (by decide) (by decide) (by decide) (fun tail _ => sp_stops _ _)
     (fun rec c tail hsep => by
       simp (decide := true) only [pSearchKeyAtom, List.append_assoc, bind, Except.bind, pSP_sp _ (notEol_text s _ hs),
@@ -56,33 +56,33 @@ theorem good_uid (s : NSet) (hs : SetOK s) :
 
 theorem good_string (key : String) (v : Str) (eff : Crit → Crit) (hv : strOk v = true)
     (hk : (str key ≠ [] ∧ (str key).all isSearchAtomChar = true ∧ upper (str key) = str key) := by decide)
-    (hp : ∀ rec c tail, pSearchKeyAtom rec c (str key) (sp ++ (Item.s v :: tail)) = .ok (eff c, tail)) :
-    Good (fuel + 1) (kw key ++ sp ++ [.s v], eff) := by
-  have := good_atomKey fuel (str key) (sp ++ [.s v]) eff hk.1 (fun c hc => List.all_eq_true.mp hk.2.1 c hc) hk.2.2
+    (hp : ∀ rec c tail, pSearchKeyAtom rec kd c (str key) (sp ++ (Item.s v :: tail)) = .ok (eff c, tail)) :
+    Good (fuel + 1) ld kd (kw key ++ sp ++ [.s v], eff) := by
+  have := good_atomKey fuel ld kd (str key) (sp ++ [.s v]) eff hk.1 (fun c hc => List.all_eq_true.mp hk.2.1 c hc) hk.2.2
     (fun tail _ => sp_stops _ _)
     (fun rec c tail _ => by simpa [List.append_assoc] using hp rec c tail)
   simpa [kw, List.append_assoc] using this
 
 theorem good_body (v : Str) (hv : strOk v = true) :
-    Good (fuel + 1) (kw "BODY" ++ sp ++ [.s v], addF fun f => { f with body := f.body ++ [v] }) :=
-  good_string fuel "BODY" v _ hv (by decide) (fun rec c tail => by
+    Good (fuel + 1) ld kd (kw "BODY" ++ sp ++ [.s v], addF fun f => { f with body := f.body ++ [v] }) :=
+  good_string fuel ld kd "BODY" v _ hv (by decide) (fun rec c tail => by
     have : v.length ≤ maxBuffered := by simpa [strOk] using hv
     simp (decide := true) only [pSearchKeyAtom, bind, Except.bind, pSP_sp _ (notEol_s _ _), pAString_s _ _ this]
     rfl)
 
 theorem good_text (v : Str) (hv : strOk v = true) :
-    Good (fuel + 1) (kw "TEXT" ++ sp ++ [.s v], addF fun f => { f with text := f.text ++ [v] }) :=
-  good_string fuel "TEXT" v _ hv (by decide) (fun rec c tail => by
+    Good (fuel + 1) ld kd (kw "TEXT" ++ sp ++ [.s v], addF fun f => { f with text := f.text ++ [v] }) :=
+  good_string fuel ld kd "TEXT" v _ hv (by decide) (fun rec c tail => by
     have : v.length ≤ maxBuffered := by simpa [strOk] using hv
     simp (decide := true) only [pSearchKeyAtom, bind, Except.bind, pSP_sp _ (notEol_s _ _), pAString_s _ _ this]
     rfl)
 
 
 theorem good_header (k v : Str) (hk : strOk k = true) (hv : strOk v = true) :
-    Good (fuel + 1) (kw "HEADER" ++ sp ++ [.s k] ++ sp ++ [.s v], addF fun f => { f with header := f.header ++ [(k, v)] }) := by
+    Good (fuel + 1) ld kd (kw "HEADER" ++ sp ++ [.s k] ++ sp ++ [.s v], addF fun f => { f with header := f.header ++ [(k, v)] }) := by
   have hk' : k.length ≤ maxBuffered := by simpa [strOk] using hk
   have hv' : v.length ≤ maxBuffered := by simpa [strOk] using hv
-  have := good_atomKey fuel (str "HEADER") (sp ++ [.s k] ++ sp ++ [.s v]) (addF fun f => { f with header := f.header ++ [(k, v)] })
+  have := good_atomKey fuel ld kd (str "HEADER") (sp ++ [.s k] ++ sp ++ [.s v]) (addF fun f => { f with header := f.header ++ [(k, v)] })
     (by decide) (by decide) (by decide)
     (fun tail _ => by simp only [List.append_assoc]; exact stops_sp _ (by decide) _)
     (fun rec c tail _ => by
@@ -93,12 +93,12 @@ theorem good_header (k v : Str) (hk : strOk k = true) (hv : strOk v = true) :
 
 /-- BCC, CC, FROM, SUBJECT, TO -/
 theorem good_addr (key : Str) (v : Str) (hkey : addrKeys.contains key = true) (hv : strOk v = true) :
-    Good (fuel + 1) (atom key ++ sp ++ [.s v], addF fun f => { f with header := f.header ++ [(titleCase key, v)] }) := by
+    Good (fuel + 1) ld kd (atom key ++ sp ++ [.s v], addF fun f => { f with header := f.header ++ [(titleCase key, v)] }) := by
   have hv' : v.length ≤ maxBuffered := by simpa [strOk] using hv
   have hmem : key ∈ addrKeys := by simpa using hkey
   have hcases : key = str "BCC" ∨ key = str "CC" ∨ key = str "FROM" ∨ key = str "SUBJECT" ∨ key = str "TO" := by
     simpa [addrKeys] using hmem
-  have := good_atomKey fuel key (sp ++ [.s v]) (addF fun f => { f with header := f.header ++ [(titleCase key, v)] })
+  have := good_atomKey fuel ld kd key (sp ++ [.s v]) (addF fun f => { f with header := f.header ++ [(titleCase key, v)] })
     (by rcases hcases with rfl | rfl | rfl | rfl | rfl <;> decide)
     (by rcases hcases with rfl | rfl | rfl | rfl | rfl <;> decide)
     (by rcases hcases with rfl | rfl | rfl | rfl | rfl <;> decide)
@@ -113,55 +113,55 @@ theorem notEol_date (d : Int) (r : Wire) : NotEol (Item.date d :: r) := by simp 
 
 theorem good_date (key : String) (d : Int) (g : Flat → Flat)
     (hk : (str key ≠ [] ∧ (str key).all isSearchAtomChar = true ∧ upper (str key) = str key) := by decide)
-    (hp : ∀ rec c tail, pSearchKeyAtom rec c (str key) (sp ++ (Item.date d :: tail)) = .ok (c.withFlat g, tail)) :
-    Good (fuel + 1) (kw key ++ sp ++ [.date d], addF g) := by
-  have := good_atomKey fuel (str key) (sp ++ [.date d]) (addF g) hk.1 (fun c hc => List.all_eq_true.mp hk.2.1 c hc) hk.2.2
+    (hp : ∀ rec c tail, pSearchKeyAtom rec kd c (str key) (sp ++ (Item.date d :: tail)) = .ok (c.withFlat g, tail)) :
+    Good (fuel + 1) ld kd (kw key ++ sp ++ [.date d], addF g) := by
+  have := good_atomKey fuel ld kd (str key) (sp ++ [.date d]) (addF g) hk.1 (fun c hc => List.all_eq_true.mp hk.2.1 c hc) hk.2.2
     (fun tail _ => sp_stops _ _)
     (fun rec c tail _ => by simpa [List.append_assoc, addF] using hp rec c tail)
   simpa [kw, List.append_assoc] using this
 
 theorem good_since (d : Int) :
-    Good (fuel + 1) (kw "SINCE" ++ sp ++ [.date d], addF fun f => { f with since := dateOnly (interSince f.since.day d) }) :=
-  good_date fuel "SINCE" d _ (by decide) (fun rec c tail => by
+    Good (fuel + 1) ld kd (kw "SINCE" ++ sp ++ [.date d], addF fun f => { f with since := dateOnly (interSince f.since.day d) }) :=
+  good_date fuel ld kd "SINCE" d _ (by decide) (fun rec c tail => by
     simp (decide := true) only [pSearchKeyAtom, bind, Except.bind, pSP_sp _ (notEol_date _ _), pDate]; rfl)
 
 theorem good_before (d : Int) :
-    Good (fuel + 1) (kw "BEFORE" ++ sp ++ [.date d], addF fun f => { f with before := dateOnly (interBefore f.before.day d) }) :=
-  good_date fuel "BEFORE" d _ (by decide) (fun rec c tail => by
+    Good (fuel + 1) ld kd (kw "BEFORE" ++ sp ++ [.date d], addF fun f => { f with before := dateOnly (interBefore f.before.day d) }) :=
+  good_date fuel ld kd "BEFORE" d _ (by decide) (fun rec c tail => by
     simp (decide := true) only [pSearchKeyAtom, bind, Except.bind, pSP_sp _ (notEol_date _ _), pDate]; rfl)
 
 theorem good_on (d : Int) :
-    Good (fuel + 1) (kw "ON" ++ sp ++ [.date d], addF fun f =>
+    Good (fuel + 1) ld kd (kw "ON" ++ sp ++ [.date d], addF fun f =>
       { f with since := dateOnly (interSince f.since.day d), before := dateOnly (interBefore f.before.day (d + day1)) }) :=
-  good_date fuel "ON" d _ (by decide) (fun rec c tail => by
+  good_date fuel ld kd "ON" d _ (by decide) (fun rec c tail => by
     simp (decide := true) only [pSearchKeyAtom, bind, Except.bind, pSP_sp _ (notEol_date _ _), pDate]; rfl)
 
 theorem good_sentsince (d : Int) :
-    Good (fuel + 1) (kw "SENTSINCE" ++ sp ++ [.date d], addF fun f => { f with sentSince := dateOnly (interSince f.sentSince.day d) }) :=
-  good_date fuel "SENTSINCE" d _ (by decide) (fun rec c tail => by
+    Good (fuel + 1) ld kd (kw "SENTSINCE" ++ sp ++ [.date d], addF fun f => { f with sentSince := dateOnly (interSince f.sentSince.day d) }) :=
+  good_date fuel ld kd "SENTSINCE" d _ (by decide) (fun rec c tail => by
     simp (decide := true) only [pSearchKeyAtom, bind, Except.bind, pSP_sp _ (notEol_date _ _), pDate]; rfl)
 
 theorem good_sentbefore (d : Int) :
-    Good (fuel + 1) (kw "SENTBEFORE" ++ sp ++ [.date d], addF fun f => { f with sentBefore := dateOnly (interBefore f.sentBefore.day d) }) :=
-  good_date fuel "SENTBEFORE" d _ (by decide) (fun rec c tail => by
+    Good (fuel + 1) ld kd (kw "SENTBEFORE" ++ sp ++ [.date d], addF fun f => { f with sentBefore := dateOnly (interBefore f.sentBefore.day d) }) :=
+  good_date fuel ld kd "SENTBEFORE" d _ (by decide) (fun rec c tail => by
     simp (decide := true) only [pSearchKeyAtom, bind, Except.bind, pSP_sp _ (notEol_date _ _), pDate]; rfl)
 
 theorem good_senton (d : Int) :
-    Good (fuel + 1) (kw "SENTON" ++ sp ++ [.date d], addF fun f =>
+    Good (fuel + 1) ld kd (kw "SENTON" ++ sp ++ [.date d], addF fun f =>
       { f with sentSince := dateOnly (interSince f.sentSince.day d), sentBefore := dateOnly (interBefore f.sentBefore.day (d + day1)) }) :=
-  good_date fuel "SENTON" d _ (by decide) (fun rec c tail => by
+  good_date fuel ld kd "SENTON" d _ (by decide) (fun rec c tail => by
     simp (decide := true) only [pSearchKeyAtom, bind, Except.bind, pSP_sp _ (notEol_date _ _), pDate]; rfl)
 
 /-- the five system flags that have a key of their own -/
 theorem good_sysflag (f k : Str) (h : flagSearchKey f = some k) :
-    Good (fuel + 1) (atom k, addF fun x => { x with flags := x.flags ++ [f] }) ∧
-    Good (fuel + 1) (kw "UN" ++ atom k, addF fun x => { x with notFlags := x.notFlags ++ [f] }) := by
+    Good (fuel + 1) ld kd (atom k, addF fun x => { x with flags := x.flags ++ [f] }) ∧
+    Good (fuel + 1) ld kd (kw "UN" ++ atom k, addF fun x => { x with notFlags := x.notFlags ++ [f] }) := by
   have hcases : (f = str "\\Answered" ∧ k = str "ANSWERED") ∨ (f = str "\\Deleted" ∧ k = str "DELETED") ∨
       (f = str "\\Draft" ∧ k = str "DRAFT") ∨ (f = str "\\Flagged" ∧ k = str "FLAGGED") ∨ (f = str "\\Seen" ∧ k = str "SEEN") := by
     unfold flagSearchKey at h
     split_ifs at h with h1 h2 h3 h4 h5 <;> simp_all
   constructor
-  · have := good_atomKey fuel k [] (addF fun x => { x with flags := x.flags ++ [f] })
+  · have := good_atomKey fuel ld kd k [] (addF fun x => { x with flags := x.flags ++ [f] })
       (by rcases hcases with ⟨_, rfl⟩ | ⟨_, rfl⟩ | ⟨_, rfl⟩ | ⟨_, rfl⟩ | ⟨_, rfl⟩ <;> decide)
       (by rcases hcases with ⟨_, rfl⟩ | ⟨_, rfl⟩ | ⟨_, rfl⟩ | ⟨_, rfl⟩ | ⟨_, rfl⟩ <;> decide)
       (by rcases hcases with ⟨_, rfl⟩ | ⟨_, rfl⟩ | ⟨_, rfl⟩ | ⟨_, rfl⟩ | ⟨_, rfl⟩ <;> decide)
@@ -172,7 +172,7 @@ theorem good_sysflag (f k : Str) (h : flagSearchKey f = some k) :
     simpa using this
   · have hun : kw "UN" ++ atom k = atom (str "UN" ++ k) := by simp [kw, atom]
     rw [hun]
-    have := good_atomKey fuel (str "UN" ++ k) [] (addF fun x => { x with notFlags := x.notFlags ++ [f] })
+    have := good_atomKey fuel ld kd (str "UN" ++ k) [] (addF fun x => { x with notFlags := x.notFlags ++ [f] })
       (by rcases hcases with ⟨_, rfl⟩ | ⟨_, rfl⟩ | ⟨_, rfl⟩ | ⟨_, rfl⟩ | ⟨_, rfl⟩ <;> decide)
       (by rcases hcases with ⟨_, rfl⟩ | ⟨_, rfl⟩ | ⟨_, rfl⟩ | ⟨_, rfl⟩ | ⟨_, rfl⟩ <;> decide)
       (by rcases hcases with ⟨_, rfl⟩ | ⟨_, rfl⟩ | ⟨_, rfl⟩ | ⟨_, rfl⟩ | ⟨_, rfl⟩ <;> decide)
@@ -183,8 +183,8 @@ theorem good_sysflag (f k : Str) (h : flagSearchKey f = some k) :
     simpa using this
 
 theorem good_keyword (f : Str) (hf : FlagOK f) :
-    Good (fuel + 1) (kw "KEYWORD" ++ sp ++ atom f, addF fun x => { x with flags := x.flags ++ [canonFlag f] }) ∧
-    Good (fuel + 1) (kw "UNKEYWORD" ++ sp ++ atom f, addF fun x => { x with notFlags := x.notFlags ++ [canonFlag f] }) := by
+    Good (fuel + 1) ld kd (kw "KEYWORD" ++ sp ++ atom f, addF fun x => { x with flags := x.flags ++ [canonFlag f] }) ∧
+    Good (fuel + 1) ld kd (kw "UNKEYWORD" ++ sp ++ atom f, addF fun x => { x with notFlags := x.notFlags ++ [canonFlag f] }) := by
   obtain ⟨c0, t0, rfl, hc0⟩ := flag_first_atomOrBackslash f hf
   have hne : ∀ tail, NotEol (atom (c0 :: t0) ++ tail) := by
     intro tail
@@ -193,14 +193,14 @@ theorem good_keyword (f : Str) (hf : FlagOK f) :
     · decide
     · constructor <;> (intro he; subst he; revert hc; decide)
   constructor
-  · have := good_atomKey fuel (str "KEYWORD") (sp ++ atom (c0 :: t0)) (addF fun x => { x with flags := x.flags ++ [canonFlag (c0 :: t0)] })
+  · have := good_atomKey fuel ld kd (str "KEYWORD") (sp ++ atom (c0 :: t0)) (addF fun x => { x with flags := x.flags ++ [canonFlag (c0 :: t0)] })
       (by decide) (by decide) (by decide) (fun tail _ => sp_stops _ _)
       (fun rec c tail hsep => by
         simp (decide := true) only [pSearchKeyAtom, List.append_assoc, bind, Except.bind, pSP_sp _ (hne _),
           pFlag_atom _ tail hf (sep_stops_atom hsep)]
         rfl)
     simpa [kw, List.append_assoc] using this
-  · have := good_atomKey fuel (str "UNKEYWORD") (sp ++ atom (c0 :: t0)) (addF fun x => { x with notFlags := x.notFlags ++ [canonFlag (c0 :: t0)] })
+  · have := good_atomKey fuel ld kd (str "UNKEYWORD") (sp ++ atom (c0 :: t0)) (addF fun x => { x with notFlags := x.notFlags ++ [canonFlag (c0 :: t0)] })
       (by decide) (by decide) (by decide) (fun tail _ => sp_stops _ _)
       (fun rec c tail hsep => by
         simp (decide := true) only [pSearchKeyAtom, List.append_assoc, bind, Except.bind, pSP_sp _ (hne _),
@@ -212,8 +212,8 @@ theorem notEol_digits (n : Nat) (tail : Wire) : NotEol (atom (digits n) ++ tail)
   notEol_atom _ _ (digits_ne_nil n) (fun c hc => digit_atomChar (digits_digit n c hc))
 
 theorem good_larger (n : Nat) (h : n < lim63) :
-    Good (fuel + 1) (kw "LARGER" ++ sp ++ atom (digits n), addF fun x => { x with larger := andLarger x.larger n }) := by
-  have := good_atomKey fuel (str "LARGER") (sp ++ atom (digits n)) (addF fun x => { x with larger := andLarger x.larger n })
+    Good (fuel + 1) ld kd (kw "LARGER" ++ sp ++ atom (digits n), addF fun x => { x with larger := andLarger x.larger n }) := by
+  have := good_atomKey fuel ld kd (str "LARGER") (sp ++ atom (digits n)) (addF fun x => { x with larger := andLarger x.larger n })
     (by decide) (by decide) (by decide) (fun tail _ => sp_stops _ _)
     (fun rec c tail hsep => by
       simp (decide := true) only [pSearchKeyAtom, List.append_assoc, bind, Except.bind, pSP_sp _ (notEol_digits _ _),
@@ -222,8 +222,8 @@ theorem good_larger (n : Nat) (h : n < lim63) :
   simpa [kw, List.append_assoc] using this
 
 theorem good_smaller (n : Nat) (h : n < lim63) :
-    Good (fuel + 1) (kw "SMALLER" ++ sp ++ atom (digits n), addF fun x => { x with smaller := andSmaller x.smaller n }) := by
-  have := good_atomKey fuel (str "SMALLER") (sp ++ atom (digits n)) (addF fun x => { x with smaller := andSmaller x.smaller n })
+    Good (fuel + 1) ld kd (kw "SMALLER" ++ sp ++ atom (digits n), addF fun x => { x with smaller := andSmaller x.smaller n }) := by
+  have := good_atomKey fuel ld kd (str "SMALLER") (sp ++ atom (digits n)) (addF fun x => { x with smaller := andSmaller x.smaller n })
     (by decide) (by decide) (by decide) (fun tail _ => sp_stops _ _)
     (fun rec c tail hsep => by
       simp (decide := true) only [pSearchKeyAtom, List.append_assoc, bind, Except.bind, pSP_sp _ (notEol_digits _ _),
